@@ -4,6 +4,7 @@ CONSTANTS MaxBr = 2 MaxN = 2 CopyMode = "deep"
   FillBr = 3
   ExtraBr = 2
   Shapes <- QuickShapes
+  Classes <- QuickClasses
   FillTemplates <- FillFew
   Templates <- AllTemplates
 INVARIANT Isolated
